@@ -195,15 +195,12 @@ func ruleErrPropagate(c *Ctx, r *R) {
 				}
 				return 0, false
 			}
-			pf.Edge = func(f *ssa.Function, blk *ssa.BasicBlock, idx int, q int) (StateSet, bool) {
+			pf.Edge = func(f *ssa.Function, g guard, q int) (StateSet, bool) {
+		blk := g.blk
+		_ = blk
 				if q != 1 {
 					return 0, false
 				}
-				iff, ok := blk.Instrs[len(blk.Instrs)-1].(*ssa.If)
-				if !ok {
-					return 0, false
-				}
-				g := guard{cond: iff.Cond, val: idx == 0}
 				if cf, ok := g.asCmp(); ok {
 					x, y := cf.x, cf.y
 					if y == e {
@@ -218,7 +215,7 @@ func ruleErrPropagate(c *Ctx, r *R) {
 					}
 					// self-inflicted cancellation: bgCtx.Err() == context.Canceled with err == context.Canceled established
 					if ec, ok := cf.x.(*ssa.Call); ok && ec.Call.IsInvoke() && ec.Call.Method.Name() == "Err" && cf.op == token.EQL && !isNilConst(cf.y) {
-						for _, gd := range append(guardsOf(blk), guard{cond: iff.Cond, val: idx == 0, blk: blk}) {
+						for _, gd := range append(guardsOf(blk), g) {
 							if c2, ok := gd.asCmp(); ok && c2.x == e && c2.op == token.EQL && strings.HasSuffix(path(c2.y), "Canceled") {
 								return ss(2), true
 							}
